@@ -33,7 +33,9 @@ static Outcome runCase(const KV& c)
     const int cycle = (int)c.getI("cycle"), extrap = (int)c.getI("extrap"), fgs = (int)c.getI("fgs"), nu1 = (int)c.getI("nu1"),
               nu2 = (int)c.getI("nu2"), mode = (int)c.getI("mode");
     cfg.extrapolation = 3; // COMBINED: both smoothers and the level-1 right-hand side exist
-    cfg.fmg           = 0;
+    // fmg_first: the object runs the full-multigrid start-up (as solve() does first) before the cycles are examined
+    const bool fmgFirst = c.getI("fmg_first", 0) != 0;
+    cfg.fmg             = fmgFirst ? 1 : 0;
     std::unique_ptr<GMGPolar> s = cfg.make();
     try {
         s->setup();
@@ -70,6 +72,26 @@ static Outcome runCase(const KV& c)
     if (nl >= 3 && L[2].grid().numberOfNodes() > 10000)
         o.cls("level2_above_parallel_threshold");
 
+    if (fmgFirst) {
+        // The cycles of a solve read the right-hand sides of level 0 and (extrapolated system) level 1 after the start-up has
+        // run: the start-up is a function of them and must leave them as they were (deeper levels hold restricted
+        // residuals, which every cycle overwrites).
+        o.cls("fmg_startup_before_cycles");
+        const Vector<double> f0 = L[0].rhs(), f1 = L[1].rhs();
+        GMGPolarVerifAccess::initializeSolution(*s);
+        for (int lev = 0; lev < 2; lev++) {
+            const Vector<double>& before = lev == 0 ? f0 : f1;
+            const Vector<double>& after  = L[lev].rhs();
+            for (int i = 0; i < (int)before.size(); i++)
+                if (std::memcmp(&before[i], &after[i], 8) != 0) {
+                    char buf[200];
+                    snprintf(buf, sizeof buf, "the full-multigrid start-up changed the right-hand side of level %d (%d levels): entry %d %.17g -> %.17g",
+                             lev, nl, i, before[i], after[i]);
+                    o.fail("rhs_changed_by_fmg_startup", buf);
+                    return o;
+                }
+        }
+    }
     Vector<double> u = makeVector(g, (int)c.getI("u_kind"), c.getU("u_seed"));
     Vector<double> zero(n);
     for (int i = 0; i < n; i++)
@@ -280,6 +302,8 @@ static KV genCase()
         if (s.max_levels > 3)
             s.max_levels = -1;
     }
+    s.fmg_its   = rint(0, 2);
+    s.fmg_cycle = rint(0, 2);
     s.put(c);
     c.putI("cycle", rint(0, 2));
     c.putI("verbose", rweighted({3, 1, 2}));
@@ -289,6 +313,7 @@ static KV genCase()
     c.putI("nu1", rint(0, 3));
     c.putI("nu2", rint(0, 3));
     c.putI("mode", rint(0, 1));
+    c.putI("fmg_first", rweighted({3, 1}));
     c.putI("u_kind", rweighted({4, 4, 0, 1, 0, 1}));
     c.putU("u_seed", rseed());
     c.putU("pollute_seed", rseed());
